@@ -274,9 +274,14 @@ def main():
             items.append((name, "pt", v, False, (2, 2)))
             if not quick:
                 items.append((name, "pt", v, False, (3, 3)))
+            elif v == "default":
+                # off-diagonal third-order oo / vv elements vanish identically with fewer than three
+                # occupied / virtual spin orbitals: 3o3v, off-diagonal assignments first
+                items.append((name, "pt", v, False, (3, 3), 4))
             if DENS[name] == 2 or not quick:
                 items.append((name, "pt", v, True, (2, 2)))
         items.append((name, "symmetry", "default", False, (2, 2)))
+        items.append((name, "symmetry", "default", False, (3, 3)))
     for name in RESID:
         for v in variants:
             items.append((name, "pt", v, False, (2, 2)))
